@@ -88,7 +88,7 @@ def run(ctx):
                     some_passed = True
     rep.check(some_passed, 'R-C14-2', 'R-C14-2/some-witness', 'the prover passes Some(witness) to the transcript wrapper', 'the prover does not pass Some(witness) to the transcript wrapper', ctx.where(prover))
     for n, e in enumerate(rekeys):
-        d = e.data()
+        d = ctx.eng.expand(e.data())
         key = 'R-C14-2/rekey/%02d' % n
         lab = e.label()
         fields = {}
@@ -173,11 +173,23 @@ def run(ctx):
     rep.floor('R-C14-4', 'challenge steps', steps, 4)
     # the rebuilt RNG is stored in the wrapper
     nstore = 0
+    stores = {}
     for b in ctx.facts.reachable_from([prover]):
         for ev in ctx.eng.bx(b).events():
             if ev['kind'] == 'store':
                 t = ctx.eng.event_term(b, ev)
                 if any(x.tag == 'call' and (x[1] in builder_fns or x[1].endswith('finalize')) for x in walk(t)):
-                    nstore += 1
-                    rep.ok('R-C14-4', 'R-C14-4/store/%s/%d' % (b.path, nstore), 'rebuilt RNG stored into %s' % t[2], ctx.where(b, ev['bb']))
+                    stores.setdefault(b.key, []).append((ev, t))
+    # one obligation per rebuild on the prover's trace: some frame of its call chain stores the rebuilt RNG (a shared helper that
+    # does the store is counted once per place it is called from)
+    seen = set()
+    for e in [x for x in evs if x.kind == 'finalize']:
+        for (bkey, bb) in e.site:
+            if bkey in stores and (e.site[:e.site.index((bkey, bb)) + 1]) not in seen:
+                seen.add(e.site[:e.site.index((bkey, bb)) + 1])
+                nstore += 1
+                ev, t = stores[bkey][0]
+                b = ctx.facts.by_key[bkey]
+                rep.ok('R-C14-4', 'R-C14-4/store/%s/%d' % (b.path, nstore), 'rebuilt RNG stored into %s' % t[2], ctx.where(b, ev['bb']))
+                break
     rep.floor('R-C14-4', 'stores of a rebuilt RNG into the wrapper', nstore, 3)
